@@ -479,9 +479,13 @@ struct Conn
 	}
 	// like a composed write: keep going until the whole tag is written (the socket object may be gone by then:
 	// the handler only touches it when the write succeeded, i.e. while it is still the same open connection)
+	std::set<tcp::socket*> writing; // socket objects with a write of ours outstanding (no hand-over while that lasts)
+	std::set<int> moved_clients, moved_accepts;
 	void write_rest(tcp::socket* s, std::vector<uint8_t>* b, std::size_t off)
 	{
+		writing.insert(s);
 		s->async_write_some(asio::buffer(b->data() + off, b->size() - off), [this, s, b, off](error_code const& ec, std::size_t n) {
+			writing.erase(s);
 			ev("tag_written", 0, ec.value(), int64_t(n));
 			if (ec || n == 0 || off + n >= b->size()) return;
 			bool alive = false;
@@ -519,6 +523,14 @@ struct Conn
 			Attempt& A2 = attempts[size_t(id)];
 			if (ec) { A2.read_err = true; return; }
 			A2.got.insert(A2.got.end(), b->begin(), b->begin() + long(n));
+			// a connection handed over to another socket object in mid-stream (nothing of ours is outstanding on it right now)
+			if (plan.c("handoff") && !moved_clients.count(id) && !writing.count(client[c].get()) && client[c]->is_open())
+			{
+				moved_clients.insert(id);
+				std::unique_ptr<tcp::socket> n2(new tcp::socket(std::move(*client[c])));
+				client[c] = std::move(n2);
+				ctx.hit("connected_socket_moved_mid_stream");
+			}
 			read_client(id);
 		});
 	}
@@ -542,6 +554,13 @@ struct Conn
 			AcceptRec& R = accepts[size_t(ri)];
 			if (ec) { R.read_err = true; return; }
 			R.got.insert(R.got.end(), b->begin(), b->begin() + long(n));
+			if (plan.c("handoff") && !moved_accepts.count(ri) && !slot_in_use_by_pending[sl] && !writing.count(slot[sl].get()) && slot[sl]->is_open())
+			{
+				moved_accepts.insert(ri);
+				std::unique_ptr<tcp::socket> n2(new tcp::socket(std::move(*slot[sl])));
+				slot[sl] = std::move(n2);
+				ctx.hit("connected_socket_moved_mid_stream");
+			}
 			read_accepted(ri);
 		});
 	}
@@ -654,6 +673,9 @@ struct Conn
 					+ ", the listening endpoint is " + eps(acc[R.acc].ep));
 			if (R.attempt < 0) { fail("conn.pairing", who + " delivered a connection that matches no connect attempt"); continue; }
 			Attempt const& at = attempts[size_t(R.attempt)];
+			// the acceptor's half of the handshake is never dropped by a queue: a connector that is still there completes too
+			if (!at.done && !at.client_closed_before_done && client_attempt[at.client] == at.id && client[at.client] && client[at.client]->is_open())
+				fail("conn.pairing.connect_missing", who + " delivered the connection of connect #" + std::to_string(at.id) + ", whose own completion never came although the connecting socket is still open");
 			int const cn = client_node[at.client];
 			tcp::endpoint const want(visible_addr(cn, at.local_addr), uint16_t(at.local_port));
 			bool const natted = nodes[size_t(cn)].nat != 0 && at.local_addr.is_v4() && nat_enabled;
@@ -745,6 +767,7 @@ struct ConnEngine : Engine
 		}
 		p.cfg["corelat"] = rng.pick(std::vector<int64_t>{0, 1000000, 10000000, 50000000});
 		p.cfg["nohops"] = rng.chance(0.08) ? 1 : 0;
+		p.cfg["handoff"] = rng.chance(0.25) ? 1 : 0;
 		if (rng.chance(c13 ? 0.35 : 0.15))
 		{
 			p.cfg["taglen"] = rng.pick(std::vector<int64_t>{3000, 20000, 50000});
